@@ -157,8 +157,20 @@ CHECKS["C06"] = dict(
    note="Additional assumptions: std transfer functions for ~60 core/alloc functions; associated constants ELEMENT_BYTES <= 64, EXTENSION_DEGREE <= 3; "
         "untainted (AIR-defined) operands below 2^32 when deciding whether an overflow is attacker-driven; contract for Context::num_modulus_bits.")
 NA = {
+ "C09": "Static analysis does not apply (DESIGN.md §4). Every clause is an equality between vectors of field elements computed by loops whose trip counts, "
+        "strides and index permutations are runtime sizes (butterfly indices, bit-reversal, chunked coset offsets, segment transposition). Nothing about the "
+        "behaviour is visible in the shape of the code; the only abstract domains in reach (intervals, order facts, polynomial normal forms of loop-free "
+        "code) cannot relate butterfly index arithmetic to polynomial evaluation, and unrolling the loops for concrete sizes would be running the code, which "
+        "this technique family excludes. No structural clause is a necessary condition here that the 220 tests do not already exercise.",
+ "C16": "Static analysis does not apply (DESIGN.md §4). The zero set of (x^n - 1)/prod(x - g^s), of x^k - offset, the shifted value polynomial and the overlap "
+        "predicate are number-theoretic functions of (length, exemptions, stride, first step): a wrong bound is structurally identical to the right one "
+        "(seed C02-B, a dropped exemption point, is missed by every structural rule for exactly this reason). The one structural clause, 'ill-formed "
+        "assertions are refused', is a set of assert! guards already pinned by should_panic tests.",
+ "C20": "Static analysis does not apply (DESIGN.md §4). Algebraic identities (q*d + r = p, interpolation inverts evaluation, x*inv(x) = 1 element-wise) over "
+        "vectors of arbitrary length computed by data-dependent loops; the symbolic polynomial engine (E5) handles loop-free code only and the interval engine "
+        "says nothing about field values. No structural necessary condition beyond what unit tests already cover was identified.",
 }
-PENDING = "check under construction in this build round (see DESIGN.md §8)"
+PENDING = "no check built"
 
 checks = []
 for pid in ALL:
